@@ -110,12 +110,49 @@ pub fn dispatch(kind: &str, v: &Value) -> Option<Outcome> {
     match kind {
         "forward-op" => serde_json::from_value::<FwdCase>(v.clone()).ok().map(|c| c.run()),
         "forward-op-sequence" => serde_json::from_value::<SeqCase>(v.clone()).ok().map(|c| c.run()),
+        "forward-op-reuse-sequence" => serde_json::from_value::<ReuseSeqCase>(v.clone()).ok().map(|c| c.run()),
         _ => None,
     }
 }
 
 pub fn campaigns(ctx: &Ctx) -> Stats {
     let mut st = Stats::default();
+    // ONE matrix used again - itself, a clone, or a reshaped VIEW of the same buffer under other dimensions - in a later
+    // product next to batched or plain partners: a product must not depend on what the same buffer was multiplied as
+    // before (packed or transposed copies remembered per buffer)
+    st.merge(ctx.run_indexed("reused-matrix-under-other-dimensions", ctx.tier.pick(40_000, 1_000_000), None, |i| {
+        let z = mix(i ^ 0xC05A ^ ctx.seed.wrapping_mul(0x9E3779B1));
+        let (p, q) = (1 + (z % 4) as usize, 1 + ((z >> 2) % 4) as usize);
+        let x = LeafSpec { dims: vec![p, q], vals: gen_vals(z, p * q, VKind::Small), tracked: (z >> 60) & 1 == 1 };
+        let views: Vec<Vec<usize>> = shapes_with_numel(p * q).into_iter().filter(|d| d.len() == 2).collect();
+        let x_is_right = (z >> 4) & 1 == 1;
+        let ncalls = 2 + ((z >> 5) % 2) as usize;
+        let mut leaves = vec![x];
+        let mut calls = vec![];
+        for c in 0..ncalls {
+            let y = mix(z ^ (c as u64 + 11));
+            let (ta, tb) = ((y >> 1) & 1 == 1, (y >> 2) & 1 == 1);
+            // first call: the matrix as it is; later calls: any rank-2 view of it (possibly the same dimensions)
+            let vd = if c == 0 { vec![p, q] } else { views[((y >> 8) % views.len() as u64) as usize].clone() };
+            let view = if vd == vec![p, q] && (y >> 3) & 1 == 0 { None } else { Some(vd.clone()) };
+            let me = ReuseArg { leaf: 0, view, via_clone: (y >> 4) & 1 == 1 };
+            let lead: Vec<usize> = match (y >> 16) % 4 { 0 => vec![], 1 => vec![2], 2 => vec![3], _ => vec![2, 2] };
+            let free = 1 + ((y >> 20) % 3) as usize;
+            let mut od = lead.clone();
+            if x_is_right {
+                // op(X) = [inner, cols]; partner A with op(A) = [free, inner]
+                let inner = if tb { vd[1] } else { vd[0] };
+                od.extend(if ta { vec![inner, free] } else { vec![free, inner] });
+            } else {
+                let inner = if ta { vd[0] } else { vd[1] };
+                od.extend(if tb { vec![free, inner] } else { vec![inner, free] });
+            }
+            leaves.push(LeafSpec { dims: od.clone(), vals: gen_vals(y, numel(&od), VKind::Small), tracked: false });
+            let other = ReuseArg { leaf: c + 1, view: None, via_clone: false };
+            calls.push(ReuseCall { op: OpKind::Matmul { ta, tb, has_c: false }, args: if x_is_right { vec![other, me] } else { vec![me, other] } });
+        }
+        Some(ReuseSeqCase { leaves, calls })
+    }));
     let t = ctx.tier;
     let mut sizes = vec![];
     let mx = t.pick(3, 4);
